@@ -250,6 +250,12 @@ def step (_ : Unit) (line : String) : Unit × String :=
     match parseCE skel with
     | some (e, []) => showCE e ++ " | " ++ showCE (wrapLeft (readCs start) (readCs stop) e)
     | _ => "bad-skeleton"
+  | ["listm", endTok, stream] =>
+    let raw := readStream stream
+    let (st, elems, ecs) := parseList (strOfHex endTok) (raw.length + 1) (init raw) [] []
+    let showPlain (cs : List Comment) := if cs.isEmpty then "-" else ",".intercalate (cs.map fun c => String.ofList c.text)
+    let es := elems.map fun (n, cs) => String.ofList n ++ "=" ++ showPlain cs
+    (if es.isEmpty then "-" else ";".intercalate es) ++ "|" ++ showPlain ecs ++ "|" ++ showPlain st.pending
   | "echo" :: rest => " ".intercalate rest
   | _ => "bad-op")
 
